@@ -123,6 +123,39 @@ func init() {
 			}
 		}
 		impl := strings.Join(out, ",") + ";off=" + b01(offOK) + ";buf=" + b01(bufOK)
+		// retention: the same script decoded into `any` values that are all KEPT until the stream is over and only then
+		// compared with encoding/json's (a value that aliases the Decoder's buffer is overwritten by later refills)
+		{
+			evs2, _ := parseEvents(a[0])
+			dec2 := json.NewDecoder(&scriptedReader{evs: evs2, final: final})
+			sd2 := stdjson.NewDecoder(bytes.NewReader(all))
+			var kept, wantKept []any
+			for len(kept) < 200000 {
+				var v any
+				if err := dec2.Decode(&v); err != nil {
+					break
+				}
+				kept = append(kept, v)
+			}
+			for len(wantKept) < len(kept) {
+				var v any
+				if err := sd2.Decode(&v); err != nil {
+					break
+				}
+				wantKept = append(wantKept, v)
+			}
+			for i := range kept {
+				if i >= len(wantKept) {
+					break // the value lists themselves are compared above
+				}
+				x, _ := stdjson.Marshal(kept[i])
+				y, _ := stdjson.Marshal(wantKept[i])
+				if !bytes.Equal(x, y) {
+					impl = fmt.Sprintf("retained-value-%d-changed-after-later-Decode-calls(%s)", i, hx(x))
+					break
+				}
+			}
+		}
 		// oracle: encoding/json on one clean, EOF-terminated read of the same bytes
 		sd := stdjson.NewDecoder(bytes.NewReader(all))
 		var want []string
